@@ -101,6 +101,10 @@ def agg_field_operands(body, adt_pat, field):
 
 def run(R):
     F = R.F
+    # "its signed owner": a register / scratchpad / transaction is only bound to its owner-derived name if the owner's signature
+    # is checked on every accepting path — the validate-compare-store rules of C07 are evaluated here too
+    from props.C07 import merge_rules
+    merge_rules(R, "C04.signed")
     R.who_may_call("C04.sinks", [PUT], STORE_FNS, floor=4, descr="put_local_record is called only from the four typed store functions")
 
     # (2) key provenance per store function
